@@ -90,58 +90,71 @@ def run(ck):
         d = sorted(e6[b] ^ e6[ref])
         r1.instance(f'partial/{b}/is_6531_email.c~{ref}', ok=not d, wclass='sibling-differs', what=f'is_6531_email of the {b} backend differs from idn2: ...{" | ".join(d[0])[-260:] if d else ""}')
     # ---- R18.2 typestate over all legal histories  init . (setup | is_email)* . free
-    r2 = ck.rule('R18.2', 'backend resource typestate over every history init.(setup|is_email)*.free: created only when absent, destroyed only when present, the initialized flag always equals the truth, and eav_free leaves nothing behind', 3)
+    r2 = ck.rule('R18.2', 'backend resource typestate over every history init.(setup|is_email)*.free: created only when absent, destroyed only when present and never by a rejected setup, handed to the validator only while live, the initialized flag always equals the truth, and eav_free leaves nothing behind', 3)
     for b in BACKENDS:
         key = f'partial/{b}/eav.c'; tu = tus[key]
         ops = {'eav_setup': setup_paths(tu), 'eav_is_email': cfgpaths.summarise(tu, 'eav_is_email')[1], 'eav_free': cfgpaths.summarise(tu, 'eav_free')[1]}
-        why = []; seen = set(); work = [(False, False)]          # (flag, live) after eav_init
+        why = []; seen = set()
         eng, ip = cfgpaths.summarise(tu, 'eav_init')
+        u0 = False
         for p in ip:
             s = p.last_set('eav->initialized')
             if s is None or s[2] != '0': why.append('eav_init does not clear initialized')
-        def apply(p, flag, live):
-            """-> (flag', live', problems) or None if the path's tests on the flag contradict the state"""
+            u = p.last_set('eav->utf8')
+            if u is not None and u[2] not in ('0', 'false'): u0 = True
+        work = [(False, False, u0)]                              # (flag, live, utf8 mode) after eav_init
+        def apply(p, flag, live, utf8, op):
+            """-> (flag', live', utf8', problems) or None if the path's tests on the state contradict it"""
             probs = []
+            live0 = live; created_here = False
             for e in p.events:
                 if e[0] == 'cond' and e[1] == 'eav':
                     if not e[2]: return None                       # the object pointer is never NULL in a legal history
                 elif e[0] == 'cond' and e[1] == 'eav->initialized':
                     if e[2] != flag: return None
                 elif e[0] == 'cond' and 'eav->initialized' in e[1]:
-                    return ('?', '?', [f'unrecognised test on initialized: {e[1]}'])
+                    return ('?', '?', '?', [f'unrecognised test on initialized: {e[1]}'])
+                elif e[0] == 'cond' and e[1] == 'eav->utf8':
+                    if e[2] != utf8: return None
                 elif e[0] == 'call' and e[1] == 'idn_resconf_create':
                     nxt = [x for x in p.events[p.events.index(e):] if x[0] == 'cond' and e[3] in x[1]]
                     ok = nxt and ((nxt[0][1] == f'({e[3]} != idn_success)' and nxt[0][2] is False) or (nxt[0][1] == f'({e[3]} == idn_success)' and nxt[0][2] is True))
                     if ok:
                         if live: probs.append('resolver created while one is live (leak)')
-                        live = True
+                        live = True; created_here = True
                 elif e[0] == 'call' and e[1] == 'idn_resconf_destroy':
                     if not live: probs.append('resolver destroyed while none is live')
+                    if op == 'eav_setup' and live0 and not created_here and p.ret() and p.ret()[1] != 'EEAV_NO_ERROR':
+                        probs.append(f'a rejected eav_setup (returns {p.ret()[1]}) releases the resolver of the mode that stays in force')
                     live = False
+                elif e[0] == 'call' and any(a == 'eav->idn' for a in e[2]):
+                    if not live: probs.append(f'{e[1]} is handed eav->idn while no resolver is live (released or never created)')
                 elif e[0] == 'set' and e[1] == 'eav->initialized':
                     flag = e[2] == '1'
-            return (flag, live, probs)
+                elif e[0] == 'set' and e[1] == 'eav->utf8':
+                    utf8 = e[2] not in ('0', 'false')
+            return (flag, live, utf8, probs)
         nstates = 0
         while work:
             st = work.pop()
             if st in seen: continue
             seen.add(st); nstates += 1
-            flag, live = st
+            flag, live, utf8 = st
             for op in ('eav_setup', 'eav_is_email'):
                 for p in ops[op]:
                     if p.events and p.events[-1][0] == 'abort': continue
-                    r = apply(p, flag, live)
+                    r = apply(p, flag, live, utf8, op)
                     if r is None: continue
-                    f2, l2, probs = r
-                    why += [f'{op} from (initialized={flag}, live={live}): {x}' for x in probs]
+                    f2, l2, u2, probs = r
+                    why += [f'{op} from (initialized={flag}, live={live}, utf8={utf8}): {x}' for x in probs]
                     if f2 == '?': continue
                     if b == 'idnkit' and f2 != l2: why.append(f'{op} from (initialized={flag}, live={live}) ends with initialized={f2} but resolver live={l2}')
-                    work.append((f2, l2))
+                    work.append((f2, l2, u2))
             for p in ops['eav_free']:
-                r = apply(p, flag, live)
+                r = apply(p, flag, live, utf8, 'eav_free')
                 if r is None: continue
-                f2, l2, probs = r
-                why += [f'eav_free from (initialized={flag}, live={live}): {x}' for x in probs]
+                f2, l2, u2, probs = r
+                why += [f'eav_free from (initialized={flag}, live={live}, utf8={utf8}): {x}' for x in probs]
                 if l2: why.append(f'eav_free from (initialized={flag}, live={live}) leaves the resolver live (leak)')
         r2.instance(f'{key}:typestate', ok=not why, wclass='typestate', what='; '.join(sorted(set(why))[:4]), detail={'abstract_states': sorted(map(str, seen))})
         ck.sample({'backend': b, 'abstract_states_reached': sorted(map(str, seen))})
